@@ -66,7 +66,7 @@ COND_OPS = {"Watch": (">", "<", "=", "==", "!=", ">=", "<="), "Alarm": (">", "<"
 TAGS = ("X", "Tag Name", "T1")
 SPACINGS = ("", " ", "  ")
 NUM_VALUES = ("1", "1.5", "-2", ".5", "1e3")
-TEXT_VALUES = ("abc", "a b")
+TEXT_VALUES = ("abc", "a b", "V12", "A2b", "x3")      # also text that ends in digits or digit+letters: still no unit
 QUICK_CONTEXTS = ((0, None, None), (4, "1.5", (" ", " ", "c d")))
 
 
